@@ -89,6 +89,9 @@ Notation Pad4 := Timestamp.Pad4. Notation Unpadded := Timestamp.Unpadded.
 """
 
 FINDING_HASH = "C06-hash-fallback-dict-order"
+FINDING_EXT = "C06-custom-observable-extension-id"
+FINDING_NONE = "C06-explicit-none-id"
+VARIANTS = {"ext_before_id": True, "none_is_given": True}      # set by check() from run-time witnesses
 
 # --------------------------------------------------------------------------
 # timestamps: the text format_datetime must give, computed here from the fields
@@ -276,6 +279,9 @@ def oracle_one(case, obs):
             out.append(("random", "no contributing property is present but the id %r is not %s--<UUIDv4>" % (obs["id"], ty)))
         return out, None, False
     ids = [det_id(ty, m) for m in alts]
+    if case.get("id_none") and is_uuid4_id(ty, obs["id"]):
+        return [("random-none", "id=None was passed (no id given) and contributing properties are present, but the id %r is a "
+                                "random UUIDv4" % obs["id"])], None, False
     if obs["id"] not in ids:
         out.append(("exact", "id %r is not %s--uuid5(NS, %r)" % (obs["id"], ty, c16.jcs_ref(alts[0])[:300])))
     if "rt_id" in obs and obs["rt_id"] != obs["id"]:
@@ -869,6 +875,11 @@ def gen_groups(rng, tier, start_index=0):
             sh = [(k, shuffle_view(rng, v)) for k, v in items]
             rng.shuffle(sh)
             g.append((mk(ty, sh, "ctor"), "same"))
+            if j % 4 == 1:
+                # `id=None` passed explicitly: None-valued arguments are dropped by the library, so no id was given
+                cn = mk(ty, items, "ctor")
+                cn["id_none"] = True
+                g.append((cn, "same"))
             sh2 = [(k, shuffle_view(rng, v)) for k, v in items]
             rng.shuffle(sh2)
             g.append((mk(ty, sh2, rng.choice(["parse", "parse", "parse_text"])), "same"))
@@ -937,12 +948,22 @@ def gen_groups(rng, tier, start_index=0):
             if given is not None and maybe(rng, 0.8):
                 contrib = contrib + ["extensions"]
                 given = contrib
+        ext_name = None
+        if maybe(rng, 0.3):
+            # declared with extension_name=...: every instance carries that extension; `extensions` may contribute
+            ext_name = "extension-definition--%s" % gen_uuid(rng)
+            if given is not None and "extensions" not in contrib and maybe(rng, 0.8):
+                contrib = contrib + ["extensions"]
+                given = contrib
         g = []
         for rel, order in (("base", items), ("same", [(k, shuffle_view(rng, v)) for k, v in rng.sample(items, len(items))])):
             counter[0] += 1
             t2 = "x-verif-%d" % counter[0]
-            g.append((mk(t2, order, rng.choice(["ctor", "parse"]), custom={"props": props, "contrib": contrib, "given": given},
-                         allow_custom=True), rel))
+            cu = {"props": props, "contrib": contrib, "given": given}
+            if ext_name:
+                # one extension definition per registered class (registration is per case)
+                cu["extension_name"] = "extension-definition--%s" % uuid.uuid5(NS, "%s/%s" % (ext_name, t2))
+            g.append((mk(t2, order, rng.choice(["ctor", "parse"]), custom=cu, allow_custom=True), rel))
         groups.append(g)
 
     # numbers inside contributing properties, over the branch structure of the number formatter: one double per
@@ -1012,6 +1033,7 @@ def run_cases_other_process(cases, hashseed):
     env["PYTHONHASHSEED"] = str(hashseed)
     if hashseed:
         env["TZ"] = "JST-9" if hashseed % 2 else "EST5EDT"      # a non-UTC POSIX zone: ids must not depend on it
+        env["VERIF_NO_JSON_ACCEL"] = "1"                        # and without the C accelerator of the json module
     script = os.path.join(common.VERIF, "harness", "impl", "c06_impl.py")
     p = subprocess.run([common.PY, script], input="\n".join(json.dumps(c) for c in cases) + "\n", stdout=subprocess.PIPE,
                        stderr=subprocess.PIPE, text=True, env=env, timeout=1800, cwd=common.scratch())
@@ -1100,7 +1122,7 @@ def model_terms(cases, obs, hp):
     for i, (c, o) in enumerate(zip(cases, obs)):
         try:
             if "view" in o:
-                items = o["view"]
+                items = model_view(c, o["view"])
             elif c.get("raw_model"):
                 items = [[k, raw_to_view(v)] for k, v in c["props"]]
             else:
@@ -1120,8 +1142,29 @@ def model_terms(cases, obs, hp):
     return terms, idx
 
 
+def model_view(case, items):
+    """the property values as _generate_id saw them: on a tree where a custom observable's own extension is added after the
+    id was computed (variant ext_before_id), that extension is not there yet"""
+    cu = case.get("custom") or {}
+    ext = cu.get("extension_name")
+    if not (ext and VARIANTS["ext_before_id"]):
+        return items
+    out = []
+    for k, v in items:
+        if c16.dec_str(k) == "extensions" and isinstance(v, dict) and "o" in v:
+            rest = [kv for kv in v["o"] if c16.dec_str(kv[0]) != ext]
+            if not rest and not any(kk == "extensions" for kk, _ in case["props"]):
+                continue                     # the dictionary itself was inserted together with the extension
+            v = {"o": rest}
+        out.append([k, v])
+    return out
+
+
 def compare_model(case, o, line):
     """None if the model line agrees with the observation, else a description"""
+    if case.get("id_none") and VARIANTS["none_is_given"] and "id" in o:
+        # on this tree an explicit None counts as a given id: _generate_id is not called, the uuid4 default stays
+        return None if is_uuid4_id(case["type"], o["id"]) else "id=None: expected the uuid4 default of this variant, got %s" % o["id"]
     if line.startswith("EXC OutOfModel") or line == "NOTYPE":
         return "skip"
     if "exc" in o:
@@ -1174,17 +1217,26 @@ def evaluate(groups, hp, run=None, tag="c06"):
             if fb_multi:
                 stats["fallback_multi"] += 1
             for kind, what in fails:
-                vio.append(Violation(what, {"kind": kind, "cases": [c]}))
+                finding = None
+                cu = c.get("custom") or {}
+                if cu.get("extension_name") and "extensions" in cu.get("contrib", []) and kind in ("exact", "roundtrip"):
+                    finding = FINDING_EXT        # the id was computed before the class's own extension was added
+                if c.get("id_none") and kind == "random-none":
+                    finding = FINDING_NONE
+                vio.append(Violation(what, {"kind": kind, "cases": [c]}, finding=finding))
             if "id" in o and key is None and not fails and not fallback:
                 stats["random"] += 1
             if "id" in o and key is not None:
                 by_proj.setdefault((c["type"], o["id"]), set()).add(key)
             if rel == "base":
                 base_case, base_obs, base_key = c, o, key
-            elif rel == "same" and base_obs is not None and "id" in base_obs and "id" in o:
+            elif rel == "same" and base_obs is not None and "id" in base_obs and "id" in o \
+                    and not (c.get("custom") or {}).get("extension_name"):
                 contrib_present = key is not None or fallback
                 if contrib_present and uuid_part(c, o["id"]) != uuid_part(base_case, base_obs["id"]):
                     finding = FINDING_HASH if (fb_multi and hashes_fallback_multi(base_case["props"])) else None
+                    if c.get("id_none") and is_uuid4_id(c["type"], o["id"]):
+                        finding = FINDING_NONE
                     vio.append(Violation(
                         "same contributing values, different ids: %s vs %s (argument/dictionary order or non-contributing "
                         "properties differ)" % (base_obs["id"], o["id"]),
@@ -1231,6 +1283,17 @@ def check(run):
     probe = run_cases([{"probe": "year999"}])[0].get("text", "")
     YEAR_MODE[0] = "Pad4" if probe.startswith("0999-") else "Unpadded"
     run.coverage["year_mode"] = YEAR_MODE[0]
+    ext_w = "extension-definition--%s" % uuid.uuid5(NS, "c06-witness-extension")
+    vw = run_cases([
+        {"n": -3, "type": "x-verif-witness-ext", "mode": "ctor", "props": [["val_a", "x"]], "allow_custom": True,
+         "custom": {"props": [["val_a", "str"]], "contrib": ["val_a", "extensions"], "given": ["val_a", "extensions"],
+                    "extension_name": ext_w}},
+        {"n": -4, "type": "file", "mode": "ctor", "props": [["name", "a"]], "allow_custom": False, "custom": None, "id_none": True}])
+    if "id" in vw[0]:
+        VARIANTS["ext_before_id"] = vw[0]["id"] == det_id("x-verif-witness-ext", {"val_a": "x"})
+    if "id" in vw[1]:
+        VARIANTS["none_is_given"] = is_uuid4_id("file", vw[1]["id"])
+    run.coverage["variants"] = dict(VARIANTS)
     wobs = run_cases(witness_cases())
     hp, why = select_variant(wobs)
     run.coverage["variant"] = hp or "none (%s)" % why
